@@ -270,7 +270,7 @@ def run(chk):
                 "(1..5000 random bytes) / an empty file / an almost-TDF file (signature present but not at offset 0, one bit off, truncated); 2-5 calls from {Tdf.new, copy, open+enter, a later mutation of any TDF "
                 "path}; after every call: bytes of every path before/after, exception class; oracle: the property's clauses "
                 "on the implementation alone; correspondence: Fs.v fs_new / fs_copy / fs_open on the same file-system state; "
-                "plus targets given as relative paths (bare name, ./name, sub/name, ../dir/name) with the current directory different from the source's; plus copies of an object opened through a symbolic link, a relative symbolic link, a chain of links or a hard link to the recording (the copy is a regular file of its own, independent under later mutation; an existing target that is itself a link is refused); non-trivial = a creating/copying call or a refused open")
+                "plus targets given as relative paths (bare name, ./name, sub/name, ../dir/name) with the current directory different from the source's; plus copies of an object opened through a symbolic link, a relative symbolic link, a chain of links or a hard link to the recording (the copy is a regular file of its own, independent under later mutation; an existing target that is itself a link is refused); plus targets that are existing directories (empty, or holding a file named like the source): refused, nothing inside changes; non-trivial = a creating/copying call or a refused open")
     rng = common.rng_for(chk.seed, "C17")
     n = 250 if chk.tier == "quick" else 4000
     work = os.path.join(chk.work, "fs")
@@ -282,6 +282,7 @@ def run(chk):
     long_lived(chk, rng, work)
     relative_targets(chk, rng, work)
     linked_sources(chk, rng, work)
+    directory_targets(chk, rng, work)
     # independence of a copy under the full container engine: mutate the copy, then the original
     from basictdf import Tdf
     for j in range(5 if chk.tier == "quick" else 60):
@@ -454,6 +455,54 @@ def linked_sources(chk, rng, work):
                         found = "a mutation of the original changed the copy"
             except Exception as e:
                 found = "a later mutation failed: " + common.exc_info(e)
+        if found:
+            chk.violation("C17: %s [%s]" % (found, what["scenario"]), what, True)
+            return
+
+
+def directory_targets(chk, rng, work):
+    """the target is an existing DIRECTORY — empty, or holding a file named like the source (the older backup): the path
+    exists, so new() and copy() are refused with FileExistsError and nothing in or around the directory changes"""
+    from basictdf import Tdf
+    d = os.path.join(work, "dirs")
+    for j in range(8 if chk.tier == "quick" else 60):
+        shutil.rmtree(d, ignore_errors=True)
+        os.makedirs(os.path.join(d, "work"))
+        os.makedirs(os.path.join(d, "backup"))
+        src = os.path.join(d, "work", "walk.tdf")
+        open(src, "wb").write(tdf_bytes(rng, work, rng.randrange(0, 3)))
+        inside = {}
+        if j % 2:
+            inside["walk.tdf"] = tdf_bytes(rng, work, 1) if j % 4 == 1 else b"an older backup, not a TDF file " * 3
+        if j % 3 == 0:
+            inside["notes.txt"] = b"keep"
+        for n, data in inside.items():
+            open(os.path.join(d, "backup", n), "wb").write(data)
+        target = os.path.join(d, "backup") + ("/" if j % 5 == 0 else "")
+        call = "copy" if j % 4 != 3 else "new"
+
+        def snap():
+            out = {}
+            for root, _dirs, files in os.walk(d):
+                for f in files:
+                    out[os.path.relpath(os.path.join(root, f), d)] = open(os.path.join(root, f), "rb").read()
+            return out
+        before = snap()
+        try:
+            Tdf(src).copy(target) if call == "copy" else Tdf.new(target)
+            rc = 0
+        except Exception as e:
+            rc = err_code(e)
+        after = snap()
+        chk.note_case(("directory target", call, sorted(inside), j), True)
+        chk.count("target is an existing directory: %s -> %s" % (call, "refused" if rc else "ok"))
+        what = {"scenario": "%s(<existing directory%s>)" % (call, " holding " + ", ".join(sorted(inside)) if inside else ""), "call": call}
+        found = None
+        changed = sorted(f for f in set(before) | set(after) if before.get(f) != after.get(f))
+        if changed:
+            found = "%s onto an existing directory %s %s" % (call, "changed" if all(f in before for f in changed) else "created", changed)
+        elif rc != common.ERR["FileExistsError"]:
+            found = "%s onto an existing directory %s" % (call, "succeeded" if rc == 0 else "raised error %d, not FileExistsError" % rc)
         if found:
             chk.violation("C17: %s [%s]" % (found, what["scenario"]), what, True)
             return
